@@ -106,6 +106,9 @@ pub struct Sh {
     pub dropped: bool,
     pub max_read: usize,
     pub max_write: usize,
+    /// write backpressure: Some(n) = accept n more bytes, then writes are Pending until resumed
+    pub wstall: Option<usize>,
+    pub wwaker: Option<Waker>,
     pub waker: Option<Waker>,
     pub log: Vec<Value>,
     pub progress: u64,
@@ -130,6 +133,8 @@ impl Sh {
             dropped: false,
             max_read: 0,
             max_write: 0,
+            wstall: None,
+            wwaker: None,
             waker: None,
             log: vec![],
             progress: 0,
@@ -495,8 +500,12 @@ impl AsyncRead for MockIo {
 }
 
 impl AsyncWrite for MockIo {
-    fn poll_write(self: Pin<&mut Self>, _: &mut Context<'_>, b: &[u8]) -> Poll<io::Result<usize>> {
+    fn poll_write(self: Pin<&mut Self>, cx: &mut Context<'_>, b: &[u8]) -> Poll<io::Result<usize>> {
         let mut s = self.0.lock().unwrap();
+        if s.wstall == Some(0) && !s.werr {
+            s.wwaker = Some(cx.waker().clone());
+            return Poll::Pending;
+        }
         s.progress += 1;
         if s.werr {
             s.log.push(json!({"e": "write_err"}));
@@ -504,6 +513,14 @@ impl AsyncWrite for MockIo {
         }
         // a transport may accept fewer bytes than offered (short write)
         let b = if s.max_write > 0 && b.len() > s.max_write { &b[..s.max_write] } else { b };
+        let b = match s.wstall {
+            Some(budget) => {
+                let n = b.len().min(budget);
+                s.wstall = Some(budget - n);
+                &b[..n]
+            }
+            None => b,
+        };
         s.log.push(json!({"e": "write", "n": b.len()}));
         for &c in b {
             if c == b'\n' {
